@@ -18,6 +18,10 @@ func entryStr(e *rdb.BinEntry) string {
 
 // load <image> <chunk>: Header, NextBinEntry*, Footer through a reader returning <chunk> bytes per Read
 func probeC01(c []string, out *bufio.Writer) {
+	if c[1] == "bighash" {
+		probeBigHash(c, out)
+		return
+	}
 	img := unhex(c[2])
 	chunk, _ := strconv.Atoi(c[3])
 	var recs []string
